@@ -44,7 +44,30 @@ def sweep(ctx, n):
         warnings.simplefilter("ignore")
         for i in range(n):
             nps = np.random.default_rng(rng.randrange(2**31))
-            kind = ["flux-free", "flux-enclosing", "flux-cutting", "circ-magnet", "circ-loop-linked", "circ-loop-unlinked", "circ-polyloop"][i % 7]
+            kind = ["flux-free", "flux-enclosing", "flux-cutting", "circ-magnet", "circ-loop-linked", "circ-loop-unlinked", "circ-polyloop", "flux-mesh-interior"][i % 8]
+            if kind == "flux-mesh-interior":
+                # small boxes strung along the line from the centroid to the farthest vertex of a lopsided mesh: inside the body B is
+                # smooth except across its surface, so the net flux of every box is zero whether it lies inside or cuts the surface
+                from oracles.sources import params
+                kw = params("TriangularMesh", nps)
+                while len(kw["vertices"]) == 8:  # want a pyramid / uneven hull, not the cube
+                    kw = params("TriangularMesh", nps)
+                src = magpy.magnet.TriangularMesh(**kw)
+                v = np.asarray(src.vertices)
+                c0 = v.mean(axis=0)
+                far = v[np.argmax(np.linalg.norm(v - c0, axis=1))]
+                worst_err = 0.0
+                for tpar in (0.15, 0.35, 0.55, 0.75):
+                    c = c0 + tpar * (far - c0)
+                    half = np.full(3, 0.07) * (1 + nps.uniform(0, 0.5, 3))
+                    tot, mag = box_flux(lambda p: src.getB(p), c, half, 60)
+                    worst_err = max(worst_err, abs(tot) / (mag + 1e-300))
+                done += 1
+                worst[kind] = max(worst.get(kind, 0.0), float(worst_err))
+                if not worst_err < 2e-2:
+                    fails.append({"key": "integral-law:flux-mesh-interior", "desc": f"net flux of B through a small box inside / cutting a TriangularMesh is not zero (relative {worst_err:.2g})",
+                                  "replay": {"vertices": v.tolist(), "faces": np.asarray(src.faces).tolist(), "rel": float(worst_err)}})
+                continue
             if kind.startswith("flux"):
                 cls = rng.choice(MAGNETS + ["Circle", "Dipole"])
                 src = make(cls, nps)
@@ -53,6 +76,12 @@ def sweep(ctx, n):
                     c, half = nps.uniform(3, 5, 3), nps.uniform(0.3, 1.5, 3)
                 elif kind == "flux-enclosing":
                     c, half = nps.uniform(-0.2, 0.2, 3), nps.uniform(2.5, 4, 3)
+                elif cls in ("Tetrahedron", "TriangularMesh", "Cuboid", "Cylinder", "Sphere") and rng.random() < 0.6:
+                    # a small box around a point inside the body (anywhere, incl. its far ends): cuts the surface or lies inside
+                    from oracles.sources import interior_points
+                    src.orientation = None
+                    c = interior_points(cls, src, nps, 1)[0] + src.position
+                    half = nps.uniform(0.05, 0.3, 3)
                 else:
                     c, half = nps.uniform(0.6, 1.1, 3) * rng.choice([-1, 1]), nps.uniform(0.45, 0.8, 3)
                 ncell = 24 if kind != "flux-cutting" else 160
